@@ -5935,7 +5935,12 @@ class Lazy(Subconstruct):
             obj = self.subcon._parsereport(stream, context, path)
             stream_seek(stream, fallback, 0, path)
             return obj
-        len = self.subcon._actualsize(stream, context, path)
+        try:
+            len = self.subcon._actualsize(stream, context, path)
+        except SizeofError:
+            stream_seek(stream, offset, 0, path)
+            obj = self.subcon._parsereport(stream, context, path)
+            return lambda: obj
         stream_seek(stream, offset + len, 0, path)
         return execute
 
